@@ -24,6 +24,10 @@ Case (driver "schedule"):
                                like the CLOSE* replies; c%3==0: the LAUNCHED event is emitted at once (event first),
                                c%3==1: the reply is delivered at once (reply first), c%3==2: both later
      c_announce                the LAUNCHED event of a circuit launched by q_build (world op)
+   "progs": [[li, trig, act, tgt], ...]  (optional) things listener double li (0-3 circuit, 4-7 stream listeners;
+                               0,1 global-type, 2,3 per-object-type) does from INSIDE callback number trig while an
+                               event is being delivered: act 0 = unlisten itself from that object, 1 = unlisten
+                               listener tgt of the same kind from it, 2 = listen() per-object listener tgt%2 on it
 After the last step every withheld reply is delivered and the waits are judged once more.
 """
 from __future__ import annotations
@@ -75,6 +79,14 @@ ASSUMPTIONS = [
     "kwargs, so none are allowed - in particular no keyword of an earlier event of the same object); the "
     "circuit/stream/router arguments are compared by id / id_hex",
     "wait results are compared by outcome (pending/succeeded/failed) and timing, not by value",
+    "listener programmes: a double may, from inside a callback during the delivery of an event, unlisten itself "
+    "or another listener from that object or listen() another per-object listener on it (public "
+    "Circuit/Stream.listen/unlisten only; it never touches TorState itself, never raises); a listener "
+    "(un)registered that way during the delivery of a transition may or may not be told that transition (at "
+    "most once), every other registered listener must be told exactly once; programmes do not run during "
+    "bootstrap, command replies or for the CLOSED-after-FAILED throw-away stream",
+    "C07's core invariant (state.circuits / state.streams list exactly tor's live objects) is asserted after "
+    "every step here as well, because a listener programme can make TorState's own handler be skipped",
     "a close() issued on an object already reported gone may complete any way or never (only 'at most once' "
     "is checked for it); when tor answered 552 to a close command for an object, outcomes of the close "
     "requests for that object are not compared with each other",
@@ -99,14 +111,21 @@ EXTRA_OPS = {"l_global_c": 2, "l_global_s": 2, "l_listen_c": 3, "l_listen_s": 3,
              "q_build": 4, "c_announce": 3}
 
 
+C_NAMES = ["circuit_new", "circuit_launched", "circuit_extend", "circuit_built", "circuit_closed", "circuit_failed"]
+S_NAMES = ["stream_new", "stream_succeeded", "stream_attach", "stream_detach", "stream_closed", "stream_failed"]
+TRIG = [4, 5, 4, 5, 3, 2, 1, 0]         # terminal notifications are the favourite trigger
+
+
 def cases():
-    return st.builds(lambda m, p, e, s: {"modern": m, "pre": p, "early": e, "steps": s},
+    prog = st.tuples(st.integers(0, 7), st.integers(0, 7), st.integers(0, 2), st.integers(0, 3)).map(list)
+    return st.builds(lambda m, p, e, s, g: {"modern": m, "pre": p, "early": e, "steps": s, "progs": g},
                      st.booleans(),
                      st.one_of(st.just([]), torworld.steps(max_size=12), torworld.steps(max_size=30)),
                      st.lists(st.booleans(), min_size=4, max_size=4),
                      st.one_of(torworld.steps(max_size=20, extra_ops=EXTRA_OPS),
                                torworld.steps(min_size=25, max_size=70, extra_ops=EXTRA_OPS),
-                               torworld.steps(min_size=25, max_size=70, extra_ops=EXTRA_OPS)))
+                               torworld.steps(min_size=25, max_size=70, extra_ops=EXTRA_OPS)),
+                     st.one_of(st.just([]), st.lists(prog, min_size=1, max_size=3), st.lists(prog, min_size=1, max_size=5)))
 
 
 # --------------------------------------------------------------------------- listener doubles
@@ -119,48 +138,70 @@ def _make_doubles():
         def __init__(self, name):
             self.name = name
             self.calls = []
+            self.hook = None        # called after a notification was recorded: hook(callback_name, object)
+
+        def _after(self, name, obj):
+            if self.hook is not None:
+                self.hook(name, obj)
 
         def circuit_new(self, circuit):
             self.calls.append(("circuit_new", circuit, (), {}))
+            self._after("circuit_new", circuit)
 
         def circuit_launched(self, circuit):
             self.calls.append(("circuit_launched", circuit, (), {}))
+            self._after("circuit_launched", circuit)
 
         def circuit_extend(self, circuit, router):
             self.calls.append(("circuit_extend", circuit, (router,), {}))
+            self._after("circuit_extend", circuit)
 
         def circuit_built(self, circuit):
             self.calls.append(("circuit_built", circuit, (), {}))
+            self._after("circuit_built", circuit)
 
         def circuit_closed(self, circuit, **kw):
             self.calls.append(("circuit_closed", circuit, (), kw))
+            self._after("circuit_closed", circuit)
 
         def circuit_failed(self, circuit, **kw):
             self.calls.append(("circuit_failed", circuit, (), kw))
+            self._after("circuit_failed", circuit)
 
     @implementer(IStreamListener)
     class StreamRec(object):
         def __init__(self, name):
             self.name = name
             self.calls = []
+            self.hook = None        # called after a notification was recorded: hook(callback_name, object)
+
+        def _after(self, name, obj):
+            if self.hook is not None:
+                self.hook(name, obj)
 
         def stream_new(self, stream):
             self.calls.append(("stream_new", stream, (), {}))
+            self._after("stream_new", stream)
 
         def stream_succeeded(self, stream):
             self.calls.append(("stream_succeeded", stream, (), {}))
+            self._after("stream_succeeded", stream)
 
         def stream_attach(self, stream, circuit):
             self.calls.append(("stream_attach", stream, (circuit,), {}))
+            self._after("stream_attach", stream)
 
         def stream_detach(self, stream, **kw):
             self.calls.append(("stream_detach", stream, (), kw))
+            self._after("stream_detach", stream)
 
         def stream_closed(self, stream, **kw):
             self.calls.append(("stream_closed", stream, (), kw))
+            self._after("stream_closed", stream)
 
         def stream_failed(self, stream, **kw):
             self.calls.append(("stream_failed", stream, (), kw))
+            self._after("stream_failed", stream)
 
     return CircRec, StreamRec
 
@@ -388,6 +429,53 @@ class Run(object):
         self.introduced = set()     # incs the controller first heard of through a 250 EXTENDED reply
         self.owed_new = set()       # (Lst, inc): circuit_new not delivered with the reply -> due with LAUNCHED
         self.build_orders = False
+        self.cur_event = None       # (kind, inc, zombie) while an event is being delivered
+        self.touched = set()        # listeners (un)registered from inside a callback during the current event
+        self.progs = {}
+        for li, trig, act, tgt in case.get("progs", []):
+            kind = "c" if li < 4 else "s"
+            name = (C_NAMES if kind == "c" else S_NAMES)[TRIG[trig % 8]]
+            self.progs.setdefault((kind, li % 4, name), []).append((act, tgt))
+        for l in self.all_listeners():
+            l.rec.hook = (lambda name, obj, l=l: self.on_callback(l, name, obj))
+
+    # -- listener programmes: what a double does from inside a callback
+    def on_callback(self, l, name, obj):
+        if self.cur_event is None:
+            return
+        kind, inc, zombie = self.cur_event
+        todo = self.progs.get((l.kind, l.idx, name))
+        if not todo or zombie or l.kind != kind or getattr(obj, "id", None) != self.cur_id:
+            return
+        res = self.res
+        for act, tgt in todo:
+            if act == 0:
+                t = l
+            elif act == 1:
+                t = self.lst[kind][tgt % 4]
+            else:
+                t = self.lst[kind][2 + tgt % 2]
+            if act in (0, 1):
+                if (act == 1 and t is l) or inc not in t.reg or inc in t.multi:
+                    continue
+                try:
+                    obj.unlisten(t.rec)
+                except ValueError as e:
+                    res.bad("listener/registered-listener-not-attached-to-object",
+                            "unlisten of %s-listener %d from inside %s raised %r" % (t.kind, t.idx, name, e))
+                    continue
+                t.reg.discard(inc)
+                self.touched.add(t)
+                res.label("prog:unlisten-%s-inside-%s" % ("itself" if act == 0 else "another-listener",
+                                                           "terminal-notification" if name[-6:] in ("closed", "failed")
+                                                           else "notification"))
+            else:
+                if t is l or inc in t.reg:
+                    continue
+                obj.listen(t.rec)
+                t.reg.add(inc)
+                self.touched.add(t)
+                res.label("prog:listen-another-listener-inside-notification")
 
     # -- bookkeeping
     def note_objects(self):
@@ -441,7 +529,7 @@ class Run(object):
         op, a, b, c = s
         res, sess, w = self.res, self.sess, self.sess.world
         if op in torworld.OPS or op in ("s_controller_wait", "c_announce"):
-            rp = sess.step(s)
+            rp = w.apply(s)
             if rp is None:
                 return
             self.events += 1
@@ -452,6 +540,12 @@ class Run(object):
                 for l in self.lst[kind]:
                     if l.active_global:
                         l.reg.add(inc)
+            self.touched = set()
+            self.cur_event, self.cur_id = (kind, inc, rp.zombie), rp.obj.id
+            try:
+                sess.emit(rp)
+            finally:
+                self.cur_event = None
             req0, opt = expected_calls(rp)
             if kind == "c" and rp.first_sight and inc in self.introduced:
                 # the 250 EXTENDED reply told the controller first: circuit_new is due now only from listeners
@@ -472,7 +566,15 @@ class Run(object):
                         res.bad("listener/notified-by-other-kind-of-event", "%s: %s listener got %r" % (
                             where, l.kind, [x[0] for x in new]))
                     continue
+                if l in self.touched:
+                    # (un)registered from inside a callback while this very transition was being delivered: it
+                    # may or may not hear about it (never more than once)
+                    judge_listener(res, l, new, [], list(req) + list(opt), True, (where, inc))
+                    res.label("judged:listener-touched-during-delivery")
+                    continue
                 registered = inc in l.reg
+                if registered and self.touched and req:
+                    res.label("judged:untouched-listener-while-another-was-(un)registered-during-delivery")
                 if registered and (req or new):
                     self.judged_calls += 1
                     for spec in req:
@@ -793,6 +895,7 @@ class Run(object):
             self.after_client_action()
             judge_waits(res, self.waits, False, "after step %d %r" % (i, s))
             self.judge_builds(False, "after step %d %r" % (i, s))
+            self.check_live_sets("after step %d %r" % (i, s))
             self.check_log("after step %d %r" % (i, s))
         if not res.ok:
             return
@@ -804,6 +907,19 @@ class Run(object):
         judge_waits(res, self.waits, True, "at the end, every acknowledgement delivered")
         self.judge_builds(True, "at the end, every acknowledgement delivered")
         self.check_log("at the end")
+
+    def check_live_sets(self, where):
+        """C07's core invariant, asserted here too so that a skipped TorState handler shows: the state lists
+        exactly the circuits/streams tor still has (as far as the controller has been told)."""
+        st_, w = self.sess.state, self.sess.world
+        for kind, got, live in (("circuit", set(st_.circuits), set(k for k, m in w.circuits.items() if self.knows(m))),
+                                ("stream", set(st_.streams), set(w.streams))):
+            if got - live:
+                self.res.bad("state-still-lists-gone-%s" % kind, "%s: state.%ss has %r, tor has %r" % (
+                    where, kind, sorted(got, key=str), sorted(live)))
+            elif live - got:
+                self.res.bad("state-misses-live-%s" % kind, "%s: state.%ss has %r, tor has %r" % (
+                    where, kind, sorted(got, key=str), sorted(live)))
 
     def check_log(self, where):
         for ev in self.logs.errors:
@@ -861,10 +977,21 @@ MANIFEST = {
 
 
 def run(ctx):
-    ctx.search("schedule", cases(), quick=1600, thorough=8000)
+    ctx.search("schedule", cases(), quick=1400, thorough=8000)
 
 
 MUTANTS = [
+    # the next three need fix C08-listener-removed-during-delivery (snapshot iteration) in the tree
+    ("closed-notification-loop-iterates-live-list", "txtorcon/circuit.py",
+     "            for x in list(self.listeners):\n                x.circuit_closed(self, **flags)",
+     "            for x in self.listeners:\n                x.circuit_closed(self, **flags)"),
+    ("extend-notification-loop-iterates-live-list", "txtorcon/circuit.py",
+     "                for x in list(self.listeners):\n                    x.circuit_extend(self, router)",
+     "                for x in self.listeners:\n                    x.circuit_extend(self, router)"),
+    ("circuit-not-deleted-in-destroy", "txtorcon/torstate.py",        # the C07 core invariant asserted here as well
+     "        del self.circuits[circuit.id]", "        pass"),
+    ("stream-notify-iterates-live-list", "txtorcon/stream.py",
+     "        for x in list(self.listeners):\n            try:", "        for x in self.listeners:\n            try:"),
     ("stream-flags-accumulate-across-events", "txtorcon/stream.py",
      "        kw = find_keywords(args)\n        self.flags = kw\n",
      "        self.flags.update(find_keywords(args))\n        kw = self.flags\n"),
@@ -902,8 +1029,8 @@ MUTANTS = [
      "        known = circ_id in self.circuits\n        circ = self._maybe_create_circuit(circ_id)\n"
      "        if not known:\n            circ.listeners = [self]\n        circ.update([str(circ_id), 'EXTENDED'])"),
     ("when-built-fires-on-extended", "txtorcon/circuit.py",
-     "        if self.state == 'BUILT':\n            for x in self.listeners:",
-     "        if self.state == 'EXTENDED':\n            self._when_built.fire(self)\n        if self.state == 'BUILT':\n            for x in self.listeners:"),
+     "        if self.state == 'BUILT':\n            for x in list(self.listeners):",
+     "        if self.state == 'EXTENDED':\n            self._when_built.fire(self)\n        if self.state == 'BUILT':\n            for x in list(self.listeners):"),
     ("circuit-close-completes-on-ack", "txtorcon/circuit.py",
      "        def close_command_is_queued(*args):\n            return self._closing_deferred\n        d = self._torstate.close_circuit",
      "        def close_command_is_queued(*args):\n            return None\n        d = self._torstate.close_circuit"),
@@ -925,8 +1052,8 @@ MUTANTS = [
     ("global-stream-listener-not-attached-to-existing", "txtorcon/torstate.py",
      "        for stream in self.streams.values():\n            stream.listen(listen)\n", ""),
     ("closing-waits-not-fired-on-failed-circuit", "txtorcon/circuit.py",
-     "            flags = self._create_flags(kw)\n            self.maybe_call_closing_deferred()\n            for x in self.listeners:\n                x.circuit_failed(self, **flags)",
-     "            flags = self._create_flags(kw)\n            for x in self.listeners:\n                x.circuit_failed(self, **flags)"),
+     "            flags = self._create_flags(kw)\n            self.maybe_call_closing_deferred()\n            for x in list(self.listeners):\n                x.circuit_failed(self, **flags)",
+     "            flags = self._create_flags(kw)\n            for x in list(self.listeners):\n                x.circuit_failed(self, **flags)"),
     ("circuit-unlisten-is-a-no-op", "txtorcon/circuit.py",
      "    def unlisten(self, listener):\n        self.listeners.remove(listener)",
      "    def unlisten(self, listener):\n        pass"),
@@ -958,14 +1085,14 @@ MUTANTS = [
      "            for x in self.stream_listeners:\n                stream.listen(x)",
      "            for x in (self.stream_listeners if args[1] == 'NEW' else []):\n                stream.listen(x)"),
     ("guard-wait-counts-as-built", "txtorcon/circuit.py",
-     "        if self.state == 'BUILT':\n            for x in self.listeners:\n                x.circuit_built(self)",
-     "        if self.state in ('BUILT', 'GUARD_WAIT'):\n            for x in self.listeners:\n                x.circuit_built(self)"),
+     "        if self.state == 'BUILT':\n            for x in list(self.listeners):\n                x.circuit_built(self)",
+     "        if self.state in ('BUILT', 'GUARD_WAIT'):\n            for x in list(self.listeners):\n                x.circuit_built(self)"),
     ("stream-listen-does-not-deduplicate", "txtorcon/stream.py",
      "        if listener not in self.listeners:\n            self.listeners.append(listener)",
      "        self.listeners.append(listener)"),
     ("stream-failed-notified-as-closed", "txtorcon/stream.py",
      "            self._notify('stream_failed', self, **flags)", "            self._notify('stream_closed', self, **flags)"),
     ("built-not-notified-when-first-seen-built", "txtorcon/circuit.py",
-     "        if self.state == 'BUILT':\n            for x in self.listeners:\n                x.circuit_built(self)\n            self._when_built.fire(self)",
-     "        if self.state == 'BUILT':\n            for x in self.listeners:\n                x.circuit_built(self)\n            if len(self.listeners) > 1:\n                self._when_built.fire(self)"),
+     "        if self.state == 'BUILT':\n            for x in list(self.listeners):\n                x.circuit_built(self)\n            self._when_built.fire(self)",
+     "        if self.state == 'BUILT':\n            for x in list(self.listeners):\n                x.circuit_built(self)\n            if len(self.listeners) > 1:\n                self._when_built.fire(self)"),
 ]
